@@ -204,8 +204,12 @@ def write_evidence(ctx, mod, out, wall):
         "wall_s": round(wall, 2), "violations": len(out.violations),
         "repo": REPO,
     }
-    os.makedirs(os.path.join(VERIF, "evidence"), exist_ok=True)
-    path = os.path.join(VERIF, "evidence", ctx.prop + ".json")
+    evdir = os.path.join(VERIF, "evidence")
+    if os.path.realpath(REPO) != "/repo":
+        # sensitivity runs against a scratch copy must never overwrite the evidence of /repo itself
+        evdir = os.path.join(VERIF, "replays", "scratch-evidence")
+    os.makedirs(evdir, exist_ok=True)
+    path = os.path.join(evdir, ctx.prop + ".json")
     tmp = path + ".tmp"
     with open(tmp, "w") as f:
         json.dump(ev, f, indent=1, default=repr, sort_keys=True)
